@@ -621,6 +621,11 @@ impl Store {
         }
 
         #[cfg(xs_verif)]
+        if let Some(hash) = &frame.hash {
+            // the frame is about to become observable: its content must already be in the CAS
+            crate::verif::note("append.visible", &hash.to_string());
+        }
+        #[cfg(xs_verif)]
         crate::verif::point("append.sending", frame.id.to_u128());
         let _ = self.broadcast_tx.send(frame.clone());
         #[cfg(xs_verif)]
